@@ -2,8 +2,9 @@
 import re
 from props.common_prog import judge_prog
 
-THEOREM_MODULES = ["Hcl.Theorems.C03", "Hcl.Tie.Banks"]
-THEOREMS = {"Hcl.Tie.Banks": ["Tie.Banks.processBanksText"], "Hcl.Theorems.C03": ["C03_accepted", "C03_bank_edge", "C03_edge", "foldDefaults", "foldSignals"]}
+THEOREM_MODULES = ["Hcl.Theorems.C03", "Hcl.Tie.Banks", "Hcl.Tie.PinsInit"]
+THEOREMS = {"Hcl.Tie.Banks": ["Tie.Banks.processBanksText"], "Hcl.Theorems.C03": ["C03_accepted", "C03_bank_edge", "C03_edge", "foldDefaults", "foldSignals"],
+            "Hcl.Tie.PinsInit": ["Tie.PinsInit.pinInitialState"]}
 
 RULE = ("S-PROG banks profile: 1-4 register banks (pairwise distinct prefix letters, 1-4 registers of widths 0..128, "
         "constant and expression defaults), stall and bubble of each bank driven independently from a counter register so "
